@@ -372,6 +372,24 @@ func c03cases(run *vlab.Run) []*c03spec {
 				s.Subnet = fmt.Sprintf("%s/%d", ipS(base), bits)
 			}
 			s.Ports = randPortRanges(rng, s.NRanges)
+			if i%5 == 2 {
+				// nested / containing / duplicated / reversed-order ranges: the filter must cover their union
+				a := 1000 + rng.Intn(60000)
+				s.Ports = [][]string{
+					{fmt.Sprintf("%d-%d", a, a+40), fmt.Sprintf("%d-%d", a+10, a+15)},
+					{fmt.Sprintf("%d-%d", a+10, a+15), fmt.Sprintf("%d-%d", a, a+40)},
+					{fmt.Sprintf("%d-%d", a, a+30), fmt.Sprintf("%d-%d", a, a+30), fmt.Sprint(a + 5)},
+					{fmt.Sprintf("%d-%d", a, a+20), fmt.Sprintf("%d-%d", a+20, a+40), fmt.Sprintf("%d-%d", a+5, a+6)},
+					{fmt.Sprintf("%d-%d", a+30, a+40), fmt.Sprintf("%d-%d", a, a+35), fmt.Sprint(a + 40)},
+				}[rng.Intn(5)][0] + "," + strings.Join([][]string{
+					{fmt.Sprintf("%d-%d", a+10, a+15)}, {fmt.Sprintf("%d-%d", a, a+40)}, {fmt.Sprintf("%d-%d", a+3, a+4)}}[rng.Intn(3)], ",")
+				s.NRanges = 2
+				bits = 31
+				base &^= 1
+				s.Subnet = fmt.Sprintf("%s/%d", ipS(base), bits)
+				s.AnswerPM = 1000
+				run.Count("c03_nested_range_cases", 1)
+			}
 		}
 		if c.kind != "arp" && rng.Intn(3) == 0 {
 			// file modes: no subnet given => any source address is acceptable
